@@ -77,6 +77,16 @@ CLAIMED = {
              "documented constructor form on the palette; the same laws on random float triples are thresholded and "
              "coverage-checked by TLC. Exhaustive on the palette, sampled off it.",
         note="TLC exact arithmetic; harness derives rotation vector / quaternion / Rx*Ry*Rz angles independently"),
+    "C12": dict(
+        level="model_checking", design="3/C12",
+        technique="TLA+ spec ScrewWrench.tla over QSE3.tla: TLC explores operator histories on two Screw/Wrench objects, "
+                  "checks round-trip, functoriality, frame recording, power invariance, sum equivariance, vector-space and "
+                  "moment laws exactly on every reachable object x palette frame, and exports histories with exact results "
+                  "replayed on the real classes; random float frames as a law trace decided by TLC",
+        text="Exact rational arithmetic inside TLC is the oracle for every history to depth 2-3 from four starting "
+             "configurations (operands as objects, 6-arrays, 6x1 arrays, scalars); float frames sampled. Bounded "
+             "exhaustive + random.",
+        note="TLC exact arithmetic (QSE3); 1e-8 relative comparison as in the property"),
 }
 
 NOT_YET = "check not built yet in this round (planned: see DESIGN.md section 3)"
